@@ -37,6 +37,8 @@ class ConvRun:
         self.t_put = []       # admission (= put) instants
         self.req_get = []
         self.t_get = []       # (time, item)
+        self.t_grant_get = []
+        self.t_cancel_get = []
         self.t_offer = {}     # id(item) -> first instant seen in ready_items
         self.max_occ = 0
         self.occ_gt_cap = None
@@ -67,11 +69,24 @@ class ConvRun:
 
     def consumer(self):
         env = self.env
-        for w in self.case["consumer"]:
+        chold = self.case.get("chold")
+        ccancel = self.case.get("ccancel")
+        for j, w in enumerate(self.case["consumer"]):
             yield env.timeout(w)
             self.req_get.append(env.now)
             tok = self.edge.reserve_get()
             yield tok
+            if ccancel and j < len(ccancel) and ccancel[j]:
+                # what a FIRST_AVAILABLE fan-in node does to the in-edges it did not pick: the granted retrieval is
+                # withdrawn in the instant of the grant, the item stays at the exit
+                for _hop in range(int(ccancel[j]) - 1):
+                    yield env.timeout(0)        # the node resumes through an any_of condition: one or two kernel hops later
+                self.t_cancel_get.append(env.now)
+                tok.resourcename.reserve_get_cancel(tok)
+                continue
+            if chold and j < len(chold) and chold[j] > 0:
+                self.t_grant_get.append(env.now)
+                yield env.timeout(chold[j])     # the destination collects the item it was handed only later
             it = self.edge.get(tok)
             self.t_get.append((env.now, it))
 
